@@ -304,6 +304,9 @@ def classify(results, expect_panic):
         cls = prop_class(name)
         st = r.get("status", "")
         desc = r.get("description", "").strip().strip('"')
+        if "MARKER" in desc:
+            # Kani shows the unexpanded `concat!("MARKER ", ..)` source text
+            desc = "MARKER " + desc.replace('concat! ("MARKER ", "', "").replace('concat!("MARKER ", "', "").rstrip('")')
         loc = r.get("sourceLocation", {})
         where = "%s:%s" % (loc.get("file", "?"), loc.get("line", "?"))
         if cls == "cover":
